@@ -97,6 +97,11 @@ pub struct Gen<'a, 'b> {
     pub injected: Option<&'static str>,
     /// names declared in blocks that have ended
     dead: Vec<String>,
+    /// >0 while generating a block that sits in an operand position: a jump out of it
+    /// would leave pending operands behind (that is C07's subject, excluded elsewhere)
+    no_jump: usize,
+    /// allow break/continue in operand positions (C07 only)
+    pub jumps_in_operands: bool,
 }
 
 const STRS: &[&str] = &["", "a", "b", "ab", "hello", "é", "x y", "0", "Zz"];
@@ -131,6 +136,8 @@ impl<'a, 'b> Gen<'a, 'b> {
             inject: None,
             injected: None,
             dead: Vec::new(),
+            no_jump: 0,
+            jumps_in_operands: false,
         }
     }
 
@@ -730,6 +737,7 @@ impl<'a, 'b> Gen<'a, 'b> {
     /// a block whose value has type `ty`
     fn value_block(&mut self, ty: &Ty, depth: usize) -> Vec<S> {
         self.push_block();
+        self.no_jump += 1;
         let mut b = Vec::new();
         if self.block_depth <= self.cfg.max_block_nesting && self.stmts_left > 0 && self.c.below(3) == 0 {
             if let Some(s) = self.stmt() {
@@ -737,6 +745,7 @@ impl<'a, 'b> Gen<'a, 'b> {
             }
         }
         b.push(S::Expr(self.expr(ty, depth)));
+        self.no_jump -= 1;
         self.pop_block();
         b
     }
@@ -890,7 +899,11 @@ impl<'a, 'b> Gen<'a, 'b> {
                 };
                 self.kind("let");
                 let e = self.expr(&ty, depth);
-                let name = self.new_var_name();
+                let mut name = self.new_var_name();
+                // `let x = <expr mentioning x>` is a declared don't-care zone
+                if mentions_e(&e, &name) {
+                    name = self.fresh_name("v");
+                }
                 let assignable = !matches!(ty, Ty::Fn(..));
                 self.declare(&name, ty, assignable);
                 S::Let(name, e)
@@ -991,7 +1004,7 @@ impl<'a, 'b> Gen<'a, 'b> {
                 S::FnDef(name, params, body)
             }
             18 if self.cfg.closures && self.fn_depth < self.cfg.max_fn_nesting => self.recursive_fn(),
-            19 if self.in_loop() => {
+            19 if self.in_loop() && (self.no_jump == 0 || self.jumps_in_operands) => {
                 self.kind("break-continue");
                 let labels: Vec<Option<String>> = self.loops.last().unwrap().clone();
                 let named: Vec<String> = labels.iter().flatten().cloned().collect();
@@ -1099,7 +1112,7 @@ impl<'a, 'b> Gen<'a, 'b> {
     fn recursive_fn(&mut self) -> S {
         self.kind("recursion");
         let name = self.fresh_name("r");
-        let style = self.c.below(3);
+        let style = self.c.below(5);
         let n0 = self.c.range(0, 6);
         let def = match style {
             0 => S::FnDef(
@@ -1126,6 +1139,42 @@ impl<'a, 'b> Gen<'a, 'b> {
                     ],
                 ),
             ),
+            3 => {
+                // recursion routed through a helper closure that names the enclosing function
+                let helper = S::Let("h".into(), E::Fn(vec!["k".into()], vec![S::Expr(E::Call(Box::new(id(&name)), vec![id("k")]))]));
+                let body = vec![
+                    helper,
+                    S::Expr(E::If(
+                        Box::new(bin("<=", id("n"), E::Int(0))),
+                        vec![S::Expr(E::Int(self.c.range(0, 3)))],
+                        Some(Box::new(Else::Block(vec![S::Expr(bin(
+                            self.c.pick_s(&["+", "*"]),
+                            id("n"),
+                            E::Call(Box::new(id("h")), vec![bin("-", id("n"), E::Int(1))]),
+                        ))]))),
+                    )),
+                ];
+                if self.c.bool() {
+                    S::FnDef(name.clone(), vec!["n".into()], body)
+                } else {
+                    S::Let(name.clone(), E::Fn(vec!["n".into()], body))
+                }
+            }
+            4 => {
+                // mutual reference through a closure stored in an array, two parameters
+                S::FnDef(
+                    name.clone(),
+                    vec!["n".into(), "d".into()],
+                    vec![
+                        S::Let("fs".into(), E::Arr(vec![E::Fn(vec!["x".into()], vec![S::Expr(E::Call(Box::new(id(&name)), vec![bin("-", id("x"), id("d")), id("d")]))])])),
+                        S::Expr(E::If(
+                            Box::new(bin("<=", id("n"), E::Int(0))),
+                            vec![S::Expr(id("d"))],
+                            Some(Box::new(Else::Block(vec![S::Expr(bin("+", E::Int(1), E::Call(Box::new(idx(id("fs"), E::Int(0))), vec![id("n")])))]))),
+                        )),
+                    ],
+                )
+            }
             _ => S::FnDef(
                 name.clone(),
                 vec!["n".into()],
@@ -1144,7 +1193,9 @@ impl<'a, 'b> Gen<'a, 'b> {
         // hidden type: only the template below calls it (a generated call could pass a huge n)
         let _ = nparams;
         self.declare(&name, Ty::Fn(97, Box::new(Ty::Null)), false);
-        let callexpr = if style == 1 {
+        let callexpr = if style == 4 {
+            E::Call(Box::new(id(&name)), vec![E::Int(n0), E::Int(self.c.range(1, 3))])
+        } else if style == 1 {
             E::Call(Box::new(id(&name)), vec![E::Int(n0), E::Int(0)])
         } else {
             E::Call(Box::new(id(&name)), vec![E::Int(n0)])
